@@ -42,7 +42,7 @@ func (c11) Plan(tier string) wk.Plan {
 	}
 	return wk.Plan{
 		Level: "exploration", Cases: n, Chunk: 10, Configs: cfgs, CaseBudget: 120,
-		Rule:          "case = one program (templates around constant lazy lists forced at run time - l[a], l.append(a), l.size()+a, l+l, closures constants, folded createInterpolation - mixed with generated programs as in C10, with a medium share of constants) x 6 rounds; every round calls Generate afresh (no sequential warm-up), then 2..16 goroutines are released by a barrier and evaluate the one function with equal or different arguments (own argument objects per call), forcing their results; in half of the rounds the hook points in List.Eval/List.Append sleep 20-200us to widen the window. Refuting events: a race-detector report with a parser2/iterator frame; a goroutine's outcome differs from the reference outcome of its own arguments. Non-trivial = program with a constant that is a lazy list or closure (measured on the optimised AST) and >= 4 goroutines; distinct by program text.",
+		Rule:          "case = one program (templates around constant lazy lists forced at run time - l[a], l.append(a), l.size()+a, l+l, closures constants, folded createInterpolation; constant maps of 1..45 entries in every representation looked into by key at run time; constant lists/maps used by every argument-dependent operation - mixed with generated programs as in C10, with a medium share of constants) x 6 rounds; every round calls Generate afresh (no sequential warm-up), then 2..16 goroutines are released by a barrier and evaluate the one function with equal or different arguments (own argument objects per call), forcing their results; in half of the rounds the hook points in List.Eval/List.Append sleep 20-200us to widen the window. Refuting events: a race-detector report with a parser2/iterator frame; a goroutine's outcome differs from the reference outcome of its own arguments. Non-trivial = program with a constant that is a lazy list or closure (measured on the optimised AST) and >= 4 goroutines; distinct by program text.",
 		Floor:         60,
 		FloorCounters: map[string]int64{"concurrent_evaluations": 3000, "hook_delay_points_hit": 50},
 		Assumptions:   []string{"the API-level specification is a pure function of the arguments, so every operation is checked against f(its own input); no linearizability search is needed", "race detection covers executed accesses only"},
@@ -61,7 +61,39 @@ func c11Templates(r interface{ IntN(int) int }) (*ref.Node, []string, []*gen.Ty)
 	L := ref.Id("l")
 	idx := ref.Bin("%", ref.Static("abs", a), ref.Int(5))
 	var body *ref.Node
-	switch r.IntN(10) {
+	switch k := r.IntN(14); k {
+	case 10, 11, 12, 13:
+		// a constant map (folded into one object shared by all evaluations) of 1..45 entries - sizes around every
+		// representation threshold - that is looked into by key only at run time
+		n := []int{1, 2, 7, 8, 9, 16, 19, 20, 21, 22, 25, 32, 33, 45}[r.IntN(14)]
+		var keys []string
+		var vals []*ref.Node
+		for i := 0; i < n; i++ {
+			keys = append(keys, fmt.Sprintf("k%d", i))
+			vals = append(vals, ref.Int(int64(i*20)))
+		}
+		var m *ref.Node = ref.MapN(keys, vals)
+		switch r.IntN(4) {
+		case 1:
+			m = ref.Method(m, "eval")
+		case 2:
+			m = ref.Bin("+", m, ref.MapN([]string{"zz"}, []*ref.Node{ref.Int(-1)}))
+		case 3:
+			m = ref.Method(m, "replace", ref.Clo([]string{"q"}, ref.MapN([]string{"k0"}, []*ref.Node{ref.Int(5)})))
+		}
+		key := ref.Bin("+", ref.Str("k"), ref.Static("string", ref.Bin("%", ref.Static("abs", a), ref.Int(int64(n)))))
+		M := ref.Id("m")
+		switch k {
+		case 10:
+			body = ref.Bin("+", ref.Method(M, "get", key), ref.Int(1))
+		case 11:
+			body = ref.ListN(ref.Method(M, "isAvail", key), ref.Bin("~", key, M), ref.Method(M, "get", key), ref.Member(M, "k0"))
+		case 12:
+			body = ref.ListN(ref.Method(M, "get", key), ref.Method(M, "size"), ref.Method(ref.Method(M, "list"), "size"))
+		default:
+			body = ref.Method(ref.Method(M, "put", ref.Str("new"), a), "get", key)
+		}
+		return ref.Let("m", m, body), []string{"a"}, []*gen.Ty{gen.TInt}
 	case 9:
 		// a folded closure constant with internal state candidates: interpolation over constant points
 		var pts []*ref.Node
@@ -107,7 +139,11 @@ func (c11) Run(c *wk.Case) {
 	var prog *ref.Node
 	var argNames []string
 	var p *gen.Program
-	if c.Index%3 != 2 {
+	if c.Index%4 == 3 {
+		// constant containers used by operations that depend on the arguments (as in C10)
+		p = c10ConstProgram(c.Rng)
+		prog, argNames = p.Root, p.ArgNames
+	} else if c.Index%4 != 2 {
 		var types []*gen.Ty
 		prog, argNames, types = c11Templates(c.Rng)
 		p = &gen.Program{Root: prog, ArgNames: argNames, ArgTypes: types}
@@ -216,6 +252,7 @@ func (c11) Run(c *wk.Case) {
 				}
 				continue
 			}
+			outs[i].FloatTol = regroupTol(true, src)
 			if v, why := bridge.CompareOutcome(jobs[i].wv, jobs[i].we, jobs[i].rae, outs[i]); v == bridge.Disagree {
 				c.Violation("concurrent-outcome-differs", fmt.Sprintf("[%s] %q: round %d, goroutine %d of %d with %v: %s", c.Config, src, round, i, ng, describeArgs(jobs[i].refArgs), why),
 					map[string]any{"src": src, "round": round, "goroutines": ng, "args": describeArgs(jobs[i].refArgs), "why": why})
